@@ -223,6 +223,17 @@ theorem hbTopic_total (P : Params) (h1 : P.low ≤ P.n) (h2 : P.n ≤ P.high) (h
         · rw [step4_no_panic] at h'; cases h'
         · rw [step5_no_panic] at hp; cases hp
 
+/-- **C34.heartbeat_no_underflow_all_populations** — the same, with the peer population spelled out:
+for EVERY valid parameter set and EVERY population of a topic — `mIn`/`mOut` inbound/outbound mesh
+members with score ≥ 0, `mNeg` members with negative score, `cIn`/`cOut` inbound/outbound candidates
+outside the mesh (connected, subscribed, not explicit, not backed off, score ≥ 0), any `pool` — and
+every outcome of the random choices, no subtraction of the mesh-maintenance iteration underflows
+and no index is out of range. -/
+theorem heartbeat_no_underflow_all_populations (P : Params) (hP : P.valid) (h : HbCfg)
+    (mIn mOut mNeg cIn cOut pool : Nat) (orc : Orc) :
+    (hbTopic P h ⟨mIn, mOut, mNeg, cIn, cOut, pool⟩ orc).isPanic = false :=
+  hbTopic_total P hP.2.1 hP.2.2.1 h _ orc
+
 theorem lookup_mem {α : Type} (l : List (Nat × α)) (t : Nat) (v : α) (h : lookup l t = some v) :
     ∃ e ∈ l, e.2 = v := by
   induction l with
@@ -410,6 +421,7 @@ end C34
 #print axioms C34.valid_accepted
 #print axioms C34.hbTopic_total
 #print axioms C34.heartbeat_total
+#print axioms C34.heartbeat_no_underflow_all_populations
 #print axioms C34.accepted_valid_never_panics
 #print axioms C34.heartbeat_panics_if_invalid
 #print axioms C34.build_validates_only_sized_topics_counterexample
